@@ -265,25 +265,34 @@ def list_perturbations(maxdev):
     """Well-formed lists of 2 and 3 cells (members: IRI, literal, blank node with a property, nested list) plus every set of <= maxdev extra triples
     from a menu that makes the list shared, decorated, forked or broken: the shapes list abbreviation must recognise - or must leave alone."""
     A, Bn, P, Q = I("a"), I("b"), I("p"), I("q")
-    c1, c2, c3, x = B("c1"), B("c2"), B("c3"), B("x")
     TYPE = ["I", str(RDF.type), None, None]
     LIST = ["I", str(RDF.List), None, None]
+    INT = str(XSD.integer)
     z0, z1, z2 = B("a0"), B("z1"), B("a2")  # labels chosen so that a later cell sorts before the head and before the referring subject
-    bases = [
-        [(z1, I("self"), z1), (z1, P, z2), (z2, FIRST, L("1", dt=str(XSD.integer))), (z2, REST, z0), (z0, FIRST, L("2", dt=str(XSD.integer))), (z0, REST, NIL)],
-        [(A, P, c1), (c1, FIRST, L("1", dt=str(XSD.integer))), (c1, REST, c2), (c2, FIRST, L("0", dt=str(XSD.integer))), (c2, REST, NIL)],
-        [(A, P, c1), (c1, FIRST, A), (c1, REST, c2), (c2, FIRST, L("")), (c2, REST, c3), (c3, FIRST, Bn), (c3, REST, NIL)],
-        [(A, P, c1), (c1, FIRST, x), (c1, REST, c2), (c2, FIRST, L("y", lang="en")), (c2, REST, NIL), (x, Q, L("z"))],
+
+    def menu_for(c1, c2, x):
+        return [(NIL, FIRST, L("x")), (NIL, REST, NIL), (c2, Q, c2), (A, Q, c2), (Bn, P, c2), (A, Q, c1), (c2, P, L("extra")), (c2, TYPE, LIST), (c1, TYPE, LIST), (c2, FIRST, L("2", dt=INT)), (c2, REST, c1),
+                (c2, REST, A), (c1, FIRST, L("0", dt=INT)), (c2, Q, c2), (NIL, P, A), (c1, P, c1), (x, Q, c2)]
+
+    c1, c2, c3, x = B("c1"), B("c2"), B("c3"), B("x")
+    variants = [
+        ([(z1, I("self"), z1), (z1, P, z2), (z2, FIRST, L("1", dt=INT)), (z2, REST, z0), (z0, FIRST, L("2", dt=INT)), (z0, REST, NIL)], menu_for(c1, c2, x)),
+        ([(A, P, c1), (c1, FIRST, L("1", dt=INT)), (c1, REST, c2), (c2, FIRST, L("0", dt=INT)), (c2, REST, NIL)], menu_for(c1, c2, x)),
+        ([(A, P, c1), (c1, FIRST, A), (c1, REST, c2), (c2, FIRST, L("")), (c2, REST, c3), (c3, FIRST, Bn), (c3, REST, NIL)], menu_for(c1, c2, x)),
     ]
-    menu = [(NIL, FIRST, L("x")), (NIL, REST, NIL), (c2, Q, c2), (A, Q, c2), (Bn, P, c2), (A, Q, c1), (c2, P, L("extra")), (c2, TYPE, LIST), (c1, TYPE, LIST), (c2, FIRST, L("2", dt=str(XSD.integer))), (c2, REST, c1),
-            (c2, REST, A), (c1, FIRST, L("0", dt=str(XSD.integer))), (c2, Q, c2), (NIL, P, A), (c1, P, c1), (x, Q, c2)]
+    # two shapes under every order of the blank-node labels (writers walk subjects in label order): a list with a described blank-node member,
+    # and a rootless cycle that runs through a list (the subject that refers to the list is itself the last member)
+    for labels in itertools.permutations(["b1", "b2", "b3"]):
+        c1, c2, x = (B(l) for l in labels)
+        variants.append(([(A, P, c1), (c1, FIRST, x), (c1, REST, c2), (c2, FIRST, L("y", lang="en")), (c2, REST, NIL), (x, Q, L("z"))], menu_for(c1, c2, x)))
+        variants.append(([(x, P, c1), (c1, FIRST, L("a")), (c1, REST, c2), (c2, FIRST, x), (c2, REST, NIL)], menu_for(c1, c2, x)))
     out = []
     seen = set()
-    for base in bases:
+    for base, menu in variants:
         for r in range(0, maxdev + 1):
             for extra in itertools.combinations(menu, r):
                 triples = list(base) + [t for t in extra if t not in base]
-                c = canon_rows(rows_of(triples))
+                c = tuple(sorted(repr(tr) for tr in triples))  # labels matter here: the same shape under another label order is another case
                 if c not in seen:
                     seen.add(c)
                     out.append(triples)
